@@ -11,20 +11,21 @@ RUN_MODULE = "C16.Run"
 RUN_FN = "run_case"
 HARNESS_BIN = "c16"
 HARNESS_BINS = ["c16", "c16bb"]
-SHRINK_KEEP = ("new", "bb")
+SHRINK_KEEP = ("new", "bb", "pool_new")
 CLAIMED = True
 RULE = ("cases: a SessionManager with max_connections in {0,1,2,3,4,5,10} and a per-(cluster,ip) limit in {0..3}, "
         "then histories over 4 connection tokens x 2 clusters x 3 source IPs of accept (gated on can_accept, then "
         "check_limits + incr), close (untrack_all + decr), gated track with and without a cluster override, runtime "
         "limit changes incl. below the current count and to 0 (clear), slab filling up to the accept threshold, "
-        "check_limits, dumps; every history ends by closing every connection. Non-trivial and distinct: >=2 connections "
+        "check_limits, dumps; every history ends by closing every connection; one case in eight is a buffer-pool history "
+        "(Pool::with_capacity(min,max) incl. min=0, checkouts and returns of 8 named buffers). Non-trivial and distinct: >=2 connections "
         "accepted and (some (cluster,ip) reached a count >= 2, or a track was refused at the limit, or an accept was "
         "refused at the cap / by the can_accept gate), distinct by op text.")
 ASSUMPTIONS = [
     "the call-site disciplines (accept only while can_accept, check_limits before incr; untrack_all then decr on close; cluster_ip_at_limit before track_cluster_ip) are replicated by the driver from Server::{ready,create_sessions,shut_down_sessions_by_frontend_tokens}, ProxySession::close and Router::connect; that every exit path of a real session runs them is checked black-box (thorough tier), not proved",
     "the nesting of the two private maps (cluster -> ip -> count, token -> cluster -> ips) is flattened in the model; their sizes are compared through the cfg(sozu_verif) footprint accessor",
 ]
-TRUSTED = ["translator props/c16.py:translate compares the check_limits comparison, the at_capacity threshold 10 + 2*max and the decr re-enable expression with lib/src/server.rs"]
+TRUSTED = ["poule::Pool hands out a buffer iff used < capacity (modelled, compared on every pool case)", "translator props/c16.py:translate compares the check_limits comparison, the at_capacity threshold 10 + 2*max and the decr re-enable expression with lib/src/server.rs"]
 
 
 def translate():
@@ -81,9 +82,24 @@ def history(rng, cid):
     return Case(cid, ops, {})
 
 
+def pool_history(rng, cid):
+    mn, mx = rng.choice([(0, 4), (1, 1), (1, 4), (2, 3), (2, 8), (3, 3), (1, 6)])
+    ops = [["pool_new", mn, mx]]
+    ids = list(range(8))
+    for _ in range(rng.randint(5, 40)):
+        if rng.random() < 0.6:
+            ops.append(["checkout", rng.choice(ids)])
+        else:
+            ops.append(["checkin", rng.choice(ids)])
+    for i in ids:
+        ops.append(["checkin", i])
+    ops.append(["checkout", 0])
+    return Case(cid, ops, {})
+
+
 def gen_cases(rng, tier):
     n = {"quick": 4000, "thorough": 80000, "search": 20000}.get(tier, 4000)
-    return [history(rng, "h%d" % i) for i in range(n)]
+    return [history(rng, "h%d" % i) if i % 8 else pool_history(rng, "p%d" % i) for i in range(n)]
 
 
 def corpus_cases():
@@ -132,6 +148,10 @@ def nontrivial(case, o):
     refused_track = any(op[0] == "track" and ob == [1] for op, ob in zip(case.ops, o["obs"]))
     multi = any(op[0] == "dump" and len(ob) > 12 and max(ob[6:12]) >= 2 for op, ob in zip(case.ops, o["obs"]))
     refused_accept = any(op[0] == "accept" and len(ob) == 4 and ob[1] == 0 for op, ob in zip(case.ops, o["obs"]))
+    if case.ops and case.ops[0][0] == "pool_new":     # pool histories: the capacity grew and a checkout was refused
+        caps = set(ob[-2] for op, ob in zip(case.ops, o["obs"]) if len(ob) >= 3)
+        refused = any(op[0] == "checkout" and ob and ob[0] == 0 for op, ob in zip(case.ops, o["obs"]))
+        return len(caps) >= 2 and refused
     granted = sum(1 for op, ob in zip(case.ops, o["obs"]) if op[0] == "accept" and len(ob) == 4 and ob[1] == 1)
     return granted >= 2 and (refused_track or multi or refused_accept)
 
@@ -140,7 +160,8 @@ LEVEL_TEXT = ("Machine-checked proof (Coq 8.16) over an executable model of Sess
               "equals the number of live connections holding the slot in every reachable state (one slot per connection "
               "per cluster, empty maps at idle, no underflow), nb_connections never exceeds max_connections and equals the "
               "number of served connections, the per-IP gate never grants a slot at the limit, accepting resumes when the "
-              "load drops (any max_connections >= 1); tied to lib/src/server.rs on every run by a constant translator and a "
+              "load drops (any max_connections >= 1), pooled buffers in use equal the checkouts held within capacity and "
+              "maximum and a checkout is refused only when the pool is exhausted; tied to lib/src/server.rs on every run by a constant translator and a "
               "differential correspondence run of the real SessionManager against the extracted model with the property's "
               "own oracle; thorough tier adds a black-box worker run comparing gauges with the idle baseline.")
 LEVEL_NOTE = ("Trusted: Coq kernel; extraction + ocaml/driver.ml for the correspondence only; the call-site disciplines are "
